@@ -133,7 +133,8 @@ class ReverseProxy(TcpUpstreamConnectionHandler, HttpWebServerBasePlugin):
                     previous.close()
                 if self.choice.scheme == HTTPS_PROTO:
                     self.upstream.wrap(
-                        text_(self.choice.hostname),
+                        # IPv6 literals are verified without their brackets
+                        text_(self.choice.hostname).strip('[]'),
                         as_non_blocking=True,
                         ca_file=self.flags.ca_file,
                     )
